@@ -1,3 +1,3 @@
 """non-IR solver checks attached to properties (direct automaton / SMT queries)."""
-import c13
-EXTRA = {"C13": [c13.check]}
+import c13, c12num
+EXTRA = {"C13": [c13.check], "C12": [c12num.check]}
